@@ -78,7 +78,7 @@ func reply(rng interface{ Intn(int) int }, n int) (text string, certs []ssh.Publ
 }
 
 func main() {
-	ev.Main("C17", "fault_enumeration", func(r *ev.Run) {
+	ev.MainIsolated("C17", "fault_enumeration", 60*time.Minute, func(r *ev.Run) {
 		r.Rule("four real gRPC/TLS signing servers on 127.0.0.2..5 share one port; for every endpoint list of length 0..4 (in natural and permuted order, empty given as nil and as []string{}) and every success/failure vector over it, each failing position takes one failure kind from {RPC status code (quick: Unavailable, Internal, DeadlineExceeded, Canceled; thorough: all 16 codes), empty key text, unparsable key text, server hangs until the per-try deadline, nobody listening}; successful positions return 1..4 certificates with comment shapes {none, word, two words, non-ASCII} and stray comment lines. Oracle from the servers' logs: the endpoints that received the request form a prefix of the configured order ending at the first success; the request each received is proto.Equal to the one passed; the result is that server's certificates in order with one comment per certificate; no success -> error (never nil certificates with a nil error). Retries (Retries 2..3, own servers, real backoff delays): a transient status (Unavailable, ResourceExhausted) is retried on the same endpoint, a non-retryable one is not; every attempt carries the unmodified request; later endpoints stay untouched when an earlier one finally answers; the observed delay between attempts stays below the configured maximum (with slack for load). Backoff: (*backoff.Config).Backoff sampled over attempts {0..70, 600..700, 2^16, 2^31, 2^32-1} x base {0, 1ns, 1ms, 2s, max} x multiplier {1, 1.0001, 1.6, 3, 1e6} x max {base..24h} x jitter {0, 0.2, 1}, 20 samples each: 0 <= d <= max*(1+jitter)+1ns. distinct_nontrivial = distinct (endpoint list, behaviour vector) signing calls judged + distinct backoff configurations x attempts within bounds")
 		r.Assume("Retries: 1 (one attempt per endpoint) in the enumeration so that failures are instant; the sign-retries family uses 2..3", "loopback servers stand in for crypki")
 		gen.Pool()
